@@ -306,8 +306,12 @@ namespace GeographicLib {
   Intersect::AllInt0(const GeodesicLine& lineX,
                      const GeodesicLine& lineY,
                      Math::real maxdist, const XPoint& p0) const {
-    real maxdistx = maxdist + _delta;
-    const int m = int(ceil(maxdistx / _d3)), // process m x m set of tiles
+    real maxdistx = maxdist + _delta,
+      mx = ceil(maxdistx / _d3);
+    // Need m * m + 1 to be representable as an int; 46340 = floor(sqrt(2^31))
+    if (!(fabs(mx) <= 46340))
+      throw GeographicErr("Intersect: maxdist is too large");
+    const int m = int(mx),                   // process m x m set of tiles
       m2 = m*m + (m - 1) % 2,                // add center tile if m is even
       n = m - 1;                             // Range of i, j = [-n:2:n]
     real d3 = maxdistx/m;                    // d3 <= _d3
